@@ -4,7 +4,7 @@ use serde_json::{json, Value};
 
 pub const DEFAULT_SEED: u64 = 20261003;
 
-pub const PROPERTIES: &[&str] = &["C01", "C02", "C03", "C04", "C05", "C06", "C14", "C17", "C19"];
+pub const PROPERTIES: &[&str] = &["C01", "C02", "C03", "C04", "C05", "C06", "C07", "C14", "C17", "C19"];
 
 pub struct PlanItem {
     pub engine: &'static str,
@@ -25,6 +25,7 @@ pub fn plan(property: &str) -> Option<Vec<PlanItem>> {
         "C04" => vec![it("matrix", 400_000, 20_000_000)],
         "C05" => vec![it("csr", 300_000, 15_000_000), it("list", 300_000, 15_000_000)],
         "C06" => vec![it("csr-visit", 40_000, 2_000_000), it("list-visit", 40_000, 2_000_000), it("matrix-visit", 40_000, 2_000_000), it("graph-visit", 60_000, 3_000_000), it("stable-visit", 60_000, 3_000_000), it("graphmap-visit", 60_000, 3_000_000)],
+        "C07" => vec![it("replicas", 30_000, 1_500_000)],
         "C14" => vec![it("acyclic-graph", 200_000, 10_000_000), it("acyclic-stable", 200_000, 10_000_000)],
         "C17" => vec![it("serde-stream", 300_000, 15_000_000)],
         "C19" => vec![it("unionfind", 4_000_000, 400_000_000)],
